@@ -33,8 +33,12 @@ Section C14.
   Notation t3 := (list (list (list R))).
 
   (* ---------------- normalisation ---------------- *)
-  (* eval-mode BatchNorm1d is a per-row affine map *)
-  Theorem batch_norm_eval_rowwise : forall ps, acts_rowwise (bn_eval O ps) (bn_eval_row O ps).
+  (* eval-mode BatchNorm1d, written as torch computes it on the [B, F] matrix (running statistics and
+     affine parameters broadcast over the batch axis), is a per-row map.  That torch's BatchNorm1d in
+     eval mode IS this computation is a modelling assumption, validated every run by perturbing a
+     real BatchNorm1d (harness/c14.py `extra`). *)
+  Theorem batch_norm_eval_rowwise : forall mean var w b,
+    acts_rowwise (bn_eval O mean var w b) (bn_eval_row O mean var w b).
   Proof. exact (bn_eval_rowwise O). Qed.
 
   (* GhostBatchNorm1d (tabnet.py) around any row-wise bn: chunking by ceil(len / 512) pieces and
@@ -179,27 +183,58 @@ Print Assumptions rowwise_opt_empty_batch.
    two layers, batch of 3 rows: output row r depends on cell (r, c) for EVERY column c and on no
    cell of another row.  The same evaluators are run by the check on the shapes of each generated
    case and compared with the dependencies measured on the real modules. *)
-Definition all_reach (cols : nat) (Y : option (list (list N))) : bool :=
-  model_fp_ok cols Y 3 (identity_rows 3) (repeat true cols).
+Definition all_reach (cols : nat) (Ps : option (list (list (list prov)))) : bool :=
+  match final_of Ps with
+  | Some Y => (length Y =? 3) && rows_ok 0 cols cols Y (identity_rows 3)
+              && bvec_eqb (col_reach 0 cols cols Y) (repeat true cols)
+  | None => false
+  end.
 
 Theorem all_columns_reach_output_bounded :
   forallb (fun cols =>
     forallb (fun layers =>
-      all_reach cols (deps2 (p_mlp 1 layers cols 2 2 (seq 0 3))) &&
-      all_reach cols (deps2 (p_mlp 2 layers cols 2 2 (seq 0 3))) &&
-      all_reach cols (deps2 (p_resnet 0 layers cols 2 2 (seq 0 3))) &&
-      all_reach cols (deps2 (p_resnet 2 layers cols 2 2 (seq 0 3))) &&
-      all_reach cols (deps2 (p_tabnet layers cols 2 2 2 2 512 2 (seq 0 3))) &&
-      all_reach cols (deps2 (p_tabnet layers cols 1 2 0 1 2 2 (seq 0 3))) &&
-      all_reach cols (deps2 (p_ft cols 2 2 (seq 0 3))) &&
-      all_reach cols (deps2 (p_tabt layers 2 cols 4 2 2 (seq 0 cols) [] (seq 0 3))) &&
-      all_reach (cols + 2) (deps2 (p_tabt layers 2 (cols + 2) 4 2 2 (seq 2 cols) [0; 1] (seq 0 3))) &&
-      all_reach cols (deps3 (p_trompt layers cols 2 2 2 (seq 0 3))) &&
-      all_reach cols (deps2 (p_excel layers 2 cols 2 2 (seq 0 3))) &&
-      all_reach cols (deps2 (p_excel layers 1 cols 2 2 (seq 0 3))))
+      all_reach cols (p_mlp 1 layers cols 2 2 (seq 0 3)) &&
+      all_reach cols (p_mlp 2 layers cols 2 2 (seq 0 3)) &&
+      all_reach cols (p_resnet 0 layers cols 2 2 (seq 0 3)) &&
+      all_reach cols (p_resnet 2 layers cols 2 2 (seq 0 3)) &&
+      all_reach cols (p_tabnet layers cols 2 2 2 2 512 2 (seq 0 3)) &&
+      all_reach cols (p_tabnet layers cols 1 2 0 1 2 2 (seq 0 3)) &&
+      all_reach cols (p_ft cols 2 2 (seq 0 3)) &&
+      all_reach cols (p_tabt layers 2 cols 4 2 2 (seq 0 cols) [] (seq 0 3)) &&
+      all_reach (cols + 2) (p_tabt layers 2 (cols + 2) 4 2 2 (seq 2 cols) [0; 1] (seq 0 3)) &&
+      all_reach cols (p_trompt layers cols 2 2 2 (seq 0 3)) &&
+      all_reach cols (p_excel layers 2 cols 2 2 (seq 0 3)) &&
+      all_reach cols (p_excel layers 1 cols 2 2 (seq 0 3)))
       [1; 2]) [1; 2; 3; 4] = true.
 Proof. vm_compute. reflexivity. Qed.
 Print Assumptions all_columns_reach_output_bounded.
+
+(* The glue of each architecture leaves a DIFFERENT trace on its intermediate tensors (again finite-
+   domain, by computation, 2..4 columns, 3 channels, batch 2): which input column reaches which
+   position of
+     ResNet   input of the backbone  [cols*C]         column c -> positions c*C .. c*C+C-1   (view(B,-1))
+     FT       input of the encoder   [(cols+1)*C]     column c -> token c+1; the CLS token (first) nothing
+     MLP      input of self.mlp      [C]              every column -> every position           (mean)
+     TabT     input of the decoder   [ncat*C + nnum]  categorical -> the first ncat*C positions only,
+                                                      numerical  -> the last nnum only        (torch.cat)
+     TabT     input of the 1st conv  [ncat*C]         column i -> token i, channels < C - pad  (positional pad)
+     Excel    input of the decoder   [cols*C]         column c -> tokens c' >= c               (causal convs)
+   These are the matrices the check measures on the real models with forward hooks, on the shapes and
+   hyper-parameters of every generated case. *)
+Theorem model_specific_footprints_bounded :
+  forallb (fun cols =>
+    let C := 3 in
+    obmat_eqb (probe_fp cols 0 (p_resnet 1 2 cols C 2 (seq 0 2))) (fp_matrix cols (cols * C) (fun c k => k / C =? c)) &&
+    obmat_eqb (probe_fp cols 0 (p_ft cols C 2 (seq 0 2))) (fp_matrix cols ((cols + 1) * C) (fun c k => k / C =? c + 1)) &&
+    obmat_eqb (probe_fp cols 0 (p_mlp 1 2 cols C 2 (seq 0 2))) (fp_matrix cols C (fun _ _ => true)) &&
+    obmat_eqb (probe_fp (cols + 2) 1 (p_tabt 1 1 (cols + 2) 4 1 2 (seq 2 cols) [0; 1] (seq 0 2)))
+              (fp_matrix (cols + 2) (cols * 4 + 2) (fun c k => if c <? 2 then cols * 4 <=? k else k <? cols * 4)) &&
+    obmat_eqb (probe_fp (cols + 2) 0 (p_tabt 1 1 (cols + 2) 4 1 2 (seq 2 cols) [0; 1] (seq 0 2)))
+              (fp_matrix (cols + 2) (cols * 4) (fun c k => (2 <=? c) && (k / 4 =? c - 2) && (k mod 4 <? 3))) &&
+    obmat_eqb (probe_fp cols 0 (p_excel 2 1 cols C 2 (seq 0 2))) (fp_matrix cols (cols * C) (fun c k => c <=? k / C)))
+    [2; 3; 4] = true.
+Proof. vm_compute. reflexivity. Qed.
+Print Assumptions model_specific_footprints_bounded.
 
 (* ---------------- the hypotheses are satisfiable; the eval-mode hypothesis matters ---------------- *)
 (* a concrete MLP over the integers: encoder [a] |-> [[a; 2a]; [3a; a+1]], mlp = reverse *)
@@ -214,7 +249,7 @@ Proof. vm_compute. split; reflexivity. Qed.
    eval-mode bn the result is the plain map *)
 Example ghost_bn_concrete :
   torch_chunk (cdiv 5 2) [[1]; [2]; [3]; [4]; [5]]%Z = [[[1]; [2]]; [[3]; [4]]; [[5]]]%Z /\
-  ghost_bn (bn_eval z_ops [(2, 1)]%Z) 2 [[1]; [2]; [3]; [4]; [5]]%Z = [[3]; [5]; [7]; [9]; [11]]%Z.
+  ghost_bn (bn_eval z_ops [0] [1] [2] [1])%Z 2 [[1]; [2]; [3]; [4]; [5]]%Z = [[3]; [5]; [7]; [9]; [11]]%Z.
 Proof. vm_compute. split; reflexivity. Qed.
 
 (* ...whereas a TRAINING-mode batch norm (batch mean) inside the same ghost batch norm is NOT
